@@ -54,3 +54,290 @@ def _ic_sampler(rng):
 
 
 c_ic.sampler = _ic_sampler
+
+
+# ------------------------------------------------------------------ the defining-integral clauses (lemmas about the trapezoid sum)
+@theorem(P, "integral-linear")
+def thm_linear(n: "int", a: "real", b: "real"):
+    requires(n >= 2)
+    x = fresh_array("x", n)
+    y1 = fresh_array("y1", n)
+    y2 = fresh_array("y2", n)
+    I1 = MC.integrate_column(y1, x)
+    I2 = MC.integrate_column(y2, x)
+    I = MC.integrate_column(a * y1 + b * y2, x)
+    t1 = array_of(n - 1, lambda k: (x[k + 1] - x[k]) * (y1[k] + y1[k + 1]) / 2)
+    t2 = array_of(n - 1, lambda k: (x[k + 1] - x[k]) * (y2[k] + y2[k + 1]) / 2)
+    s1 = array_of(n - 1, lambda k: a * ((x[k + 1] - x[k]) * (y1[k] + y1[k + 1]) / 2))
+    s2 = array_of(n - 1, lambda k: b * ((x[k + 1] - x[k]) * (y2[k] + y2[k + 1]) / 2))
+    t = array_of(n - 1, lambda k: (x[k + 1] - x[k]) * ((a * y1[k] + b * y2[k]) + (a * y1[k + 1] + b * y2[k + 1])) / 2)
+    pointwise(n - 1, lambda k: t[k] == s1[k] + s2[k], id="term of the combination = combination of the terms")
+    use_lemma("sum_scale", t1, s1, a, n - 1)
+    use_lemma("sum_scale", t2, s2, b, n - 1)
+    use_lemma("sum_add", s1, s2, t, n - 1)
+    S1 = ssum(n - 1, lambda k: a * ((x[k + 1] - x[k]) * (y1[k] + y1[k + 1]) / 2))
+    S2 = ssum(n - 1, lambda k: b * ((x[k + 1] - x[k]) * (y2[k] + y2[k + 1]) / 2))
+    ST = ssum(n - 1, lambda k: (x[k + 1] - x[k]) * ((a * y1[k] + b * y2[k]) + (a * y1[k + 1] + b * y2[k + 1])) / 2)
+    ensures(S1 == a * I1, id="step: scaled terms sum to a I(y1)")
+    ensures(S2 == b * I2, id="step: scaled terms sum to b I(y2)")
+    ensures(ST == S1 + S2, id="step: sum of the combined terms")
+    ensures(I == ST, id="step: the code integrates the combined terms")
+    ensures(I == a * I1 + b * I2, id="integrate_column(a y1 + b y2, x) == a I(y1) + b I(y2)")
+
+
+@theorem(P, "integral-additive")
+def thm_additive(n: "int", m: "int"):
+    # splitting the range at grid point m: I(y[0..m], x[0..m]) + I(y[m..], x[m..]) == I(y, x)
+    requires(n >= 3, 1 <= m, m <= n - 2)
+    x = fresh_array("x", n)
+    y = fresh_array("y", n)
+    whole = MC.integrate_column(y, x)
+    left = MC.integrate_column(y[:m + 1], x[:m + 1])
+    right = MC.integrate_column(y[m:], x[m:])
+    t = array_of(n - 1, lambda k: (x[k + 1] - x[k]) * (y[k] + y[k + 1]) / 2)
+    tl = array_of(m, lambda k: (x[k + 1] - x[k]) * (y[k] + y[k + 1]) / 2)
+    tr = array_of(n - 1 - m, lambda k: (x[m + k + 1] - x[m + k]) * (y[m + k] + y[m + k + 1]) / 2)
+    use_lemma("sum_ext", tl, t, m)                   # the first m terms are the same terms
+    use_lemma("sum_shift", t, tr, m, n - 1 - m)      # the last n-1-m terms are the shifted terms
+    ensures(left + right == whole, id="additive when the range is split at a grid point")
+
+
+@theorem(P, "integral-reversal")
+def thm_reversal(n: "int"):
+    requires(n >= 2)
+    x = fresh_array("x", n)
+    y = fresh_array("y", n)
+    fwd = MC.integrate_column(y, x)
+    bwd = MC.integrate_column(y[::-1], x[::-1])
+    t = array_of(n - 1, lambda k: (x[k + 1] - x[k]) * (y[k] + y[k + 1]) / 2)
+    neg = array_of(n - 1, lambda k: -1 * ((x[k + 1] - x[k]) * (y[k] + y[k + 1]) / 2))
+    r = array_of(n - 1, lambda k: (x[n - 1 - (k + 1)] - x[n - 1 - k]) * (y[n - 1 - k] + y[n - 1 - (k + 1)]) / 2)
+    pointwise(n - 1, lambda k: r[k] == neg[(n - 1) - 1 - k], id="reversed term k is minus forward term n-2-k")
+    use_lemma("sum_reverse", neg, r, n - 1)
+    use_lemma("sum_scale", t, neg, -1, n - 1)
+    ensures(bwd == -fwd, id="changes sign when the coordinate is reversed")
+
+
+@theorem(P, "integral-unit-spacing")
+def thm_unit(n: "int"):
+    requires(n >= 2)
+    y = fresh_array("y", n)
+    d = MC.integrate_column(y)
+    e = MC.integrate_column(y, array_of(n, lambda k: k))
+    pointwise(n - 1, lambda k: ((k + 1) - k) * (y[k] + y[k + 1]) / 2 == (y[k] + y[k + 1]) / 2, id="unit spacing")
+    ensures(d == e, id="x=None means unit spacing")
+
+
+# ------------------------------------------------------------------ integrate_water_vapor
+def _setup_iwv(ctx, cfg):
+    n = ctx.fresh("n", "int")
+    ctx.assume(n >= 2)
+    d = dict(vmr=_fa(ctx, "vmr", (n,)), p=_fa(ctx, "p", (n,)))
+    if cfg["T"]:
+        d["T"] = _fa(ctx, "T", (n,))
+    if cfg["z"]:
+        d["z"] = _fa(ctx, "z", (n,))
+    return d
+
+
+VMR_OK = "forall(0, len(vmr), lambda i: 0 <= vmr[i] and vmr[i] < 1)"
+ENV14 = {"trap": trap}
+c_iwv_h = contract(MA + "integrate_water_vapor", prop=P, setup=_setup_iwv, pure=False, result="real", env=ENV14,
+                   configs=[{"T": False, "z": False}, {"T": True, "z": True}, {"T": True, "z": False}, {"T": False, "z": True}],
+                   requires=[VMR_OK, "T is None or forall(0, len(vmr), lambda i: T[i] > 0)"],
+                   raises=[("(T is None) != (z is None)", ValueError)],
+                   ensures=["implies_(T is None and z is None, lambda: result == "
+                            "-trap(array_of(len(vmr), lambda i: vmr2specific_humidity(vmr[i])), p, len(vmr)) / constants.earth_standard_gravity)",
+                            "implies_(T is not None and z is not None, lambda: result == "
+                            "trap(array_of(len(vmr), lambda i: vmr[i] * (p[i] / (constants.gas_constant_water_vapor * T[i]))), z, len(vmr)))"])
+
+
+def implies_(cond, thunk):
+    return thunk() if cond else True
+
+
+ENV14["implies_"] = implies_
+
+
+def _iwv_sampler(rng):
+    n = rng.randint(2, 6)
+    p = _np.sort(_np.array([rng.uniform(100, 1000e2) for _ in range(n)]))[::-1].copy()
+    d = dict(vmr=_np.array([rng.uniform(0, 0.04) for _ in range(n)]), p=p)
+    if rng.random() < 0.5:
+        d["T"] = _np.array([rng.uniform(200, 300) for _ in range(n)])
+        d["z"] = _np.cumsum([rng.uniform(100, 2000) for _ in range(n)])
+    return d
+
+
+c_iwv_h.sampler = _iwv_sampler
+
+
+@theorem(P, "iwv-nonnegative")
+def thm_iwv(n: "int"):
+    requires(n >= 2)
+    vmr = fresh_array("vmr", n)
+    p = fresh_array("p", n)
+    requires(forall(0, n, lambda i: 0 <= vmr[i] and vmr[i] < 1))
+    requires(forall(0, n - 1, lambda i: p[i + 1] < p[i]))          # pressure decreases along the profile
+    iwv = A.integrate_water_vapor(vmr, p)
+    g = constants.earth_standard_gravity
+    terms = array_of(n - 1, lambda k: (p[k + 1] - p[k]) * (A.vmr2specific_humidity(vmr[k]) + A.vmr2specific_humidity(vmr[k + 1])) / 2)
+    neg = array_of(n - 1, lambda k: -1 * ((p[k + 1] - p[k]) * (A.vmr2specific_humidity(vmr[k]) + A.vmr2specific_humidity(vmr[k + 1])) / 2))
+    pointwise(n - 1, lambda k: neg[k] >= 0, id="every layer contributes a non-negative amount")
+    use_lemma("sum_scale", terms, neg, -1, n - 1)
+    use_lemma("sum_nonneg", neg, n - 1)
+    ensures(iwv >= 0, id="IWV >= 0 for non-negative vmr and decreasing pressure")
+
+
+# ------------------------------------------------------------------ pressure2height
+def _setup_p2h(ctx, cfg):
+    n = ctx.fresh("n", "int")
+    ctx.assume(n >= 2)
+    return dict(p=_fa(ctx, "p", (n,)), T=_fa(ctx, "T", (n,)))
+
+
+c_p2h = contract(MA + "pressure2height", prop=P, setup=_setup_p2h, pure=False,
+                 result=lambda ctx, env: _fa(ctx, "z", env["p"].shape),
+                 requires=["forall(0, len(p), lambda i: p[i] > 0 and T[i] > 0)"],
+                 ensures=["len(result) == len(p)", "result[0] == 0",
+                          # each layer adds -dp / (rho_layer g), rho = p / (R_d T): the discrete hydrostatic equation
+                          "forall(0, len(p) - 1, lambda k: result[k + 1] - result[k] == -(p[k + 1] - p[k]) / "
+                          "(0.5 * (density(p[k], T[k]) + density(p[k + 1], T[k + 1])) * constants.g))"],
+                 canaries=["result[1] == 0"])
+
+
+def _p2h_sampler(rng):
+    n = rng.randint(2, 6)
+    return dict(p=_np.sort(_np.array([rng.uniform(100, 1000e2) for _ in range(n)]))[::-1].copy(),
+                T=_np.array([rng.uniform(200, 300) for _ in range(n)]))
+
+
+c_p2h.sampler = _p2h_sampler
+
+
+@theorem(P, "height-monotone")
+def thm_height(n: "int"):
+    requires(n >= 2)
+    p = fresh_array("p", n)
+    T = fresh_array("T", n)
+    requires(forall(0, n, lambda i: p[i] > 0 and T[i] > 0))
+    requires(forall(0, n - 1, lambda i: p[i + 1] < p[i]))
+    z = A.pressure2height(p, T)
+    k = fresh("k", "int")
+    requires(0 <= k, k < n - 1)
+    ensures(z[0] == 0, id="starts at 0")
+    ensures(z[k + 1] > z[k], id="strictly increasing with decreasing pressure")
+
+c_dens = contract(MA + "density", prop=P, params=dict(p="real", T="real", R="real"), elementwise=True,
+                  requires=["T != 0", "R != 0"], ensures=["result == p / (R * T)"])
+c_dens.domain = {"p": (1.0, 1e5), "T": (150.0, 350.0), "R": (100.0, 500.0)}
+
+
+# ------------------------------------------------------------------ column_relative_humidity (1-d profile)
+c_wvp = contract(MA + "water_vapor_pressure2specific_humidity", prop=P, params=dict(e="real", p="real"), elementwise=True,
+                 requires=["0 <= e", "e < p"],
+                 ensures=["result == 0.622 * e / (p - 0.378 * e)", "0 <= result", "result < 1"])
+c_wvp.domain = {"e": (0.0, 5000.0), "p": (6000.0, 1.1e5)}
+
+
+def _setup_crh(ctx, cfg):
+    n = ctx.fresh("n", "int")
+    ctx.assume(n >= 2)
+    return dict(q=_fa(ctx, "q", (n,)), p=_fa(ctx, "p", (n,)), t=_fa(ctx, "t", (n,)))
+
+
+def qsat(t, p, i):
+    return A.water_vapor_pressure2specific_humidity(A.e_eq_mixed_mk(t[i]), p[i])
+
+
+def roundtrip(q, i):
+    # what the code integrates: q -> vmr (column_relative_humidity) -> q (integrate_water_vapor)
+    return A.vmr2specific_humidity(A.specific_humidity2vmr(q[i]))
+
+
+qsat.__pyvc_thm__ = True
+roundtrip.__pyvc_thm__ = True
+ENV14.update(qsat=qsat, roundtrip=roundtrip)
+CRH_REQ = ["forall(0, len(q), lambda i: 0 <= q[i] and q[i] < 1 and t[i] > 0 and e_eq_mixed_mk(t[i]) < p[i])",
+           # the saturated column integral is not zero (true for strictly decreasing pressure, see thm crh)
+           "trap(array_of(len(q), lambda i: roundtrip(array_of(len(q), lambda j: qsat(t, p, j)), i)), p, len(q)) != 0"]
+c_crh = contract(
+    MA + "column_relative_humidity", prop=P, setup=_setup_crh, pure=False, result="real", env=ENV14,
+    requires=CRH_REQ,
+    loops={0: dict(modifies=["i", "qs"],
+                   invariant=["forall(0, _k, lambda j: qs[j] == qsat(t, p, j))"],
+                   define_after={"qs": "lambda j: qsat(t, p, j)"})},
+    ensures=[
+        "result == (-trap(array_of(len(q), lambda i: roundtrip(q, i)), p, len(q)) / constants.earth_standard_gravity) / "
+        "(-trap(array_of(len(q), lambda i: roundtrip(array_of(len(q), lambda j: qsat(t, p, j)), i)), p, len(q)) / constants.earth_standard_gravity)"])
+
+
+def _crh_sampler(rng):
+    n = rng.randint(2, 5)
+    return dict(q=_np.array([rng.uniform(0.0001, 0.01) for _ in range(n)]),
+                p=_np.sort(_np.array([rng.uniform(300e2, 1000e2) for _ in range(n)]))[::-1].copy(),
+                t=_np.array([rng.uniform(230, 300) for _ in range(n)]))
+
+
+c_crh.sampler = _crh_sampler
+
+
+from pyvc.sumtheory import algebraic_lemma as _alg
+import z3 as _z3
+_alg("ratio_scale", 5, lambda s1, s2, den, a, g: _z3.Implies(_z3.And(den != 0, g != 0, s2 == a * s1),
+                                                              (-s2 / g) / (-den / g) == a * ((-s1 / g) / (-den / g))))
+
+
+@theorem(P, "crh")
+def thm_crh(n: "int", a: "real"):
+    requires(n >= 2, a > 0)
+    p = fresh_array("p", n)
+    t = fresh_array("t", n)
+    q = fresh_array("q", n)
+    requires(forall(0, n, lambda i: t[i] > 0 and A.e_eq_mixed_mk(t[i]) < p[i]))
+    requires(forall(0, n, lambda i: 0 <= q[i] and q[i] < 1 and 0 <= a * q[i] and a * q[i] < 1))
+    qs = array_of(n, lambda j: qsat(t, p, j))
+    den = trap(array_of(n, lambda i: roundtrip(qs, i)), p, n)
+    requires(den != 0)
+    # the q -> vmr -> q round trip inside the code is the identity (inverse pair of C09), level by level
+    pointwise(n, lambda i: roundtrip(qs, i) == qs[i], id="round trip of the saturated profile")
+    pointwise(n, lambda i: roundtrip(q, i) == q[i], id="round trip of q")
+    pointwise(n, lambda i: roundtrip(array_of(n, lambda j: a * q[j]), i) == a * q[i], id="round trip of a q")
+    # saturated profile: CRH == 1
+    one = A.column_relative_humidity(qs, p, t)
+    ensures(one == 1, id="CRH == 1 for a profile saturated w.r.t. the mixed phase")
+    # linear in q
+    c1 = A.column_relative_humidity(q, p, t)
+    c2 = A.column_relative_humidity(array_of(n, lambda j: a * q[j]), p, t)
+    aq = array_of(n, lambda j: a * q[j])
+    T1 = array_of(n - 1, lambda k: (p[k + 1] - p[k]) * (roundtrip(q, k) + roundtrip(q, k + 1)) / 2)
+    T2 = array_of(n - 1, lambda k: (p[k + 1] - p[k]) * (roundtrip(aq, k) + roundtrip(aq, k + 1)) / 2)
+    U1 = array_of(n - 1, lambda k: (p[k + 1] - p[k]) * (q[k] + q[k + 1]) / 2)
+    U2 = array_of(n - 1, lambda k: (p[k + 1] - p[k]) * (a * q[k] + a * q[k + 1]) / 2)
+    pointwise(n - 1, lambda k: T1[k] == U1[k], id="layer terms of q without the round trip")
+    pointwise(n - 1, lambda k: T2[k] == U2[k], id="layer terms of a q without the round trip")
+    pointwise(n - 1, lambda k: U2[k] == a * U1[k], id="each layer scales with a")
+    use_lemma("sum_ext", T1, U1, n - 1)
+    use_lemma("sum_ext", T2, U2, n - 1)
+    use_lemma("sum_scale", U1, U2, a, n - 1)
+    ensures(ssum(n - 1, lambda k: (p[k + 1] - p[k]) * (roundtrip(aq, k) + roundtrip(aq, k + 1)) / 2)
+            == a * ssum(n - 1, lambda k: (p[k + 1] - p[k]) * (roundtrip(q, k) + roundtrip(q, k + 1)) / 2),
+            id="step: the column integral scales with a")
+    S1 = ssum(n - 1, lambda k: (p[k + 1] - p[k]) * (roundtrip(q, k) + roundtrip(q, k + 1)) / 2)
+    S2 = ssum(n - 1, lambda k: (p[k + 1] - p[k]) * (roundtrip(aq, k) + roundtrip(aq, k + 1)) / 2)
+    use_lemma("ratio_scale", S1, S2, den, a, constants.earth_standard_gravity)
+    ensures(c2 == a * c1, id="CRH scales linearly with q")
+
+
+@bounded(P, "standard-atmosphere-nodes", "the 8 tabulated levels of the standard atmosphere (exhaustive): height and pressure addressing agree")
+def bounded_isa(rng, tier):
+    h = [-610, 11000, 20000, 32000, 47000, 51000, 71000, 84852]
+    p = [108_900, 22_632, 5474.9, 868.02, 110.91, 66.939, 3.9564, 0.3734]
+    failures, samples = [], []
+    for hk, pk in zip(h, p):
+        a = float(A.standard_atmosphere(hk))
+        b = float(A.standard_atmosphere(pk, coordinates="pressure"))
+        if abs(a - b) > 1e-9:
+            failures.append({"h": hk, "p": pk, "T(h)": a, "T(p)": b})
+        samples.append({"h": hk, "p": pk, "T": a})
+    return {"evaluations": 8, "distinct_nontrivial": 8, "failures": failures, "samples": samples[:3], "exhaustive": True}
